@@ -477,6 +477,21 @@ def r08_17(run, model):
         for l in S.walk(iff["cond"]):
             if l["k"] == "Let" and l["expr"]["k"] == "MethodCall" and l["expr"]["method"] == "get" and S.is_path(l["expr"]["recv"], "scope"):
                 plain.append((iff, l))
+    # the same decision written as a match on the lookup: the arm for a found entry must not fall back on the incoming type
+    found_arms = []
+    for m2 in S.find(arm["body"], "Match"):
+        sc = m2["scrut"]
+        if sc["k"] == "MethodCall" and sc["method"] == "get" and S.is_path(sc["recv"], "scope"):
+            for a2 in m2["arms"]:
+                if S.pat_head(S.strip_refs(S.pat_alts(a2["pat"])[0]))[1][-1:] == ["Some"]:
+                    found_arms.append(a2)
+    if not plain and found_arms:
+        leaks = [a2 for a2 in found_arms if incoming and (S.idents(a2["body"]) & set(incoming))]
+        built = [st for st in S.find(arm["body"], "Struct") if st["segs"][-1] == "EVar"]
+        run.ob("R08.17", "transform_expr|a local of the conversion scope is typed from its scope entry", bool(built) and not leaks, site(LIFT, arm["sp"]),
+               f"scope lookup decided by a match: {len(found_arms)} arm(s) for a found entry, {len(leaks)} use the incoming type",
+               witness="let pair = (add_base, 7); let h = pair.0; h(1): `pair` keeps Mono's type, the call through h is not routed to the apply function")
+        return
     ok = bool(plain)
     detail = "no `if let Some(entry) = scope.get(&name)`: the scope lookup is narrowed before it decides"
     if plain:
